@@ -207,6 +207,9 @@ func (e *Exec) decide(n int, constraint func(i int) *Term) int {
 	if len(feas) == 0 {
 		panic(pathEnd{"no feasible option"})
 	}
+	if len(feas) > 1 && len(e.stack) > 0 {
+		e.st.Forks[e.stack[len(e.stack)-1]] += len(feas) - 1
+	}
 	for _, alt := range feas[1:] {
 		p := append(append([]int{}, e.trace...), alt)
 		e.pending = append(e.pending, p)
@@ -241,6 +244,9 @@ func (e *Exec) branch(c *Term) bool {
 	}
 	switch {
 	case f0 && f1:
+		if len(e.stack) > 0 {
+			e.st.Forks[e.stack[len(e.stack)-1]]++
+		}
 		e.pending = append(e.pending, append(append([]int{}, e.trace...), 1))
 		e.trace = append(e.trace, 0)
 		e.addPC(nc)
